@@ -45,6 +45,8 @@ func c10Cases(tier string) []Case {
 		c10Case("meta-origin", []string{`account $x = meta(@a, "k")`, bal("m", "b", "USD")}, []string{send("$m", "$x", "@d")}, nil, "a.k=c", ""),
 		c10Case("meta-origin", []string{`account $x = meta(@a, "missing")`}, []string{send("%N", "$x", "@d")}, nil, "a.k=c", ""),
 		c10Case("meta-origin", []string{`monetary $x = meta(@a, "k")`}, []string{send("$x", "@b", "@d")}, nil, "a.k=USD 12", ""),
+		c10Case("meta-origin", []string{`account $x = meta(@zz, "k")`}, []string{send("%N", "$x", "@d")}, nil, "a.k=c", ""),
+		c10Case("portion-variable", nil, []string{send("%N", "{ $p from @a remaining from @b }", "{ $q to @d remaining kept }")}, map[string][2]string{"p": {"portion", "portion:1/3"}, "q": {"portion", "portion:1/4"}}, "", ""),
 		c10Case("account-variable", nil, []string{send("%N", "{ $s @b }", "@d")}, map[string][2]string{"s": {"account", "acc:a"}}, "", ""),
 		c10Case("two-assets", []string{bal("m", "a", "EUR")}, []string{send("%N", "@a", "@d"), send("$m", "@a", "@e")}, nil, "", ""),
 	)
